@@ -681,6 +681,104 @@ def c20(tier):
     return jobs, meta
 
 
+# ---- C05 -------------------------------------------------------------------------------
+E2 = os.path.join(D.VERIF, "e2")
+ASM_ISAS = [("armv6", "armv6"), ("armv6m", "armv6m"), ("armv7m", "armv7m"), ("avr5", "avr5"), ("riscv32e", "riscv32e"),
+            ("riscv32i", "riscv32i"), ("riscv64i", "riscv64i"), ("xtensa", "xtensa-call0"), ("xtensa", "xtensa-windowed")]
+
+
+def c05_rounds(tier):
+    return [1, 2, 3, 5, 8, 9, 10, 20, 24] if tier == "quick" else list(range(1, 25))
+
+
+@prop("C05")
+def c05(tier):
+    jobs = []
+    jobs.append(Job("c32-lemmaA", "c05_perm.c", {"VARIANT": 1}, SPEC, SPEC, backend="sat", unwind=40, facet="portable C: Lemma A (macro == 32 NLFSR steps)"))
+    for ks in KSS:
+        for r in c05_rounds(tier):
+            jobs.append(Job("c32-%d-lemmaB-r%d" % (ks, r), "c05_perm.c", {"VARIANT": 2, "KS": ks, "ROUNDS": r}, SPEC + D.perm_real(ks),
+                            SPEC + D.perm_real(ks), backend="z3", unwind=4 * r + 40, timeout=600,
+                            facet="portable C: Lemma B (real function == word-level chain)"))
+        for r in ((1, 2) if tier == "quick" else (1, 2, 3, 4)):
+            jobs.append(Job("c32-%d-direct-r%d" % (ks, r), "c05_perm.c", {"VARIANT": 3, "KS": ks, "ROUNDS": r}, SPEC + D.perm_real(ks),
+                            SPEC + D.perm_real(ks), backend="kissat", unwind=128 * r + 20, timeout=1800,
+                            facet="portable C: real function == bit-serial NLFSR directly"))
+    if os.path.exists(os.path.join(E2, "asmcheck.py")):
+        jobs.append(CmdJob("asm-lemmaA", ["python3-vt", os.path.join(E2, "asmcheck.py"), "--lemma-a"], timeout=300, facet="assembly: Lemma A in z3"))
+        jobs.append(CmdJob("asm-isa-selftest", ["python3-vt", os.path.join(E2, "asmcheck.py"), "--selftest"], timeout=1800,
+                           facet="ISA model validation against test/unit/test-permutation.c vectors"))
+        for ks in KSS:
+            for (fisa, isa) in ASM_ISAS:
+                f = os.path.join(D.SRC, "backend/tinyjambu-%d-asm-%s.S" % (ks, fisa))
+                for r in c05_rounds(tier):
+                    jobs.append(CmdJob("asm-%d-%s-r%d" % (ks, isa, r),
+                                       ["python3-vt", os.path.join(E2, "asmcheck.py"), "--file", f, "--isa", isa, "--keybits", str(ks),
+                                        "--rounds", str(r), "--seed", str(D.SEED)], timeout=900 if tier == "quick" else 3000,
+                                       facet="assembly %s" % isa, shape={"keybits": ks, "isa": isa, "rounds": r}))
+        jobs.append(CmdJob("generators-and-selection", ["python3-vt", os.path.join(E2, "gencheck.py")], timeout=600,
+                           facet="generator identity (finite, exhaustive) and backend selection"))
+    meta = {
+        "level": "translation_validation",
+        "functions": ["tinyjambu_permutation_128/192/256 (portable C)", "tinyjambu_steps_32 (macro)",
+                      "tinyjambu_permutation_N in 24 assembly files x ABI variants (E2)"],
+        "units": ["src/backend/tinyjambu-{128,192,256}-c32.c", "src/backend/tinyjambu-backend.h",
+                  "src/backend/tinyjambu-{128,192,256}-asm-{armv6,armv6m,armv7m,avr5,riscv32e,riscv32i,riscv64i,xtensa}.S",
+                  "tools/gen{arm,riscv,xtensa}"],
+        "bounds": "all 2^128 states x all keys symbolic; round counts {1,2,3,5,8,9,10,20,24} (thorough: 1..24); portable C: Lemma A (macro == 32 "
+                  "bit-serial steps, SAT), Lemma B per round count (real function == word-level chain, z3), direct equality with the bit-serial NLFSR "
+                  "for r <= 2 (thorough 4); assembly: cut-point equivalence with the same chain per (file, ABI variant, r), frame and ABI facts, "
+                  "concrete control flow",
+        "outside": "round counts above 24; execution on real hardware (the ISA semantics of E2 are trusted base, validated against the repo's "
+                   "permutation test vectors); gcc's code generation for the C backend",
+        "stubs": [], "assumptions": ["cbmc / z3 / kissat trusted", "ISA semantics and ABI tables in /verif/e2 (see its README) are trusted",
+                                     "composition Lemma A o Lemma B is equational (stated, not machine-checked)"],
+        "relies_on": [],
+        "rule": "one obligation per (backend program, ABI variant, round count) or lemma; all state and key bits symbolic; distinct = distinct "
+                "(program, variant, rounds) tuples that reached a verdict",
+    }
+    return jobs, meta
+
+
+# ---- C19 -------------------------------------------------------------------------------
+@prop("C19")
+def c19(tier):
+    jobs = []
+    for cfg in ("default", "volatile", "syscall"):
+        jobs.append(CmdJob("structure-%s" % cfg, [sys.executable, os.path.join(D.VERIF, "lib/c19_struct.py"), cfg], timeout=600,
+                           facet="structural: no writable statics, no heap, imports (from goto-cc output)", shape={"config": cfg}))
+    # family 0: AEAD / SIV / hash / clean on the real code (permutation = UF)
+    src0 = LIBC + PERM_UF + CLEAN + HASH_REAL + S("backend/tinyjambu-util.c")
+    for ks in KSS:
+        src0 += S("tinyjambu-%d-aead.c" % ks, "tinyjambu-%d-siv.c" % ks, "backend/tinyjambu-aead-common-%d.c" % ks)
+    nat0 = [x for x in src0 if not x.endswith("libc.c") and not x.endswith("perm_uf.c")] + D.ALL_PERMS
+    pairs0 = [(a, b) for a in range(3) for b in range(5)] if tier != "quick" else [(0, 0), (0, 2), (0, 3), (1, 1), (1, 4), (2, 2), (2, 0)]
+    for (a, b) in pairs0:
+        jobs.append(Job("history-real-A%d-B%d" % (a, b), "c19_hist.c", {"FAMILY": 0, "A": a, "B": b}, src0, nat0, backend="kissat", unwind=120,
+                        timeout=1200, extra=["--nondet-static"], facet="history independence, AEAD/SIV/hash/clean (--nondet-static)"))
+    # family 1: HMAC / HKDF / PBKDF2 / PRNG real code over the abstract hash
+    src1 = LIBC + ABSFOLD + KDFSPEC + CLEAN + S("tinyjambu-hmac.c", "tinyjambu-hkdf.c", "tinyjambu-pbkdf2.c", "tinyjambu-prng.c", "random/tinyjambu-trng-dev-random.c")
+    nat1 = CUT2_NATIVE + S("tinyjambu-hmac.c", "tinyjambu-hkdf.c", "tinyjambu-pbkdf2.c", "tinyjambu-prng.c", "random/tinyjambu-trng-dev-random.c")
+    pairs1 = [(a, b) for a in range(2) for b in range(3)] if tier != "quick" else [(0, 0), (1, 2), (1, 0)]
+    for (a, b) in pairs1:
+        jobs.append(Job("history-kdf-A%d-B%d" % (a, b), "c19_hist.c", {"FAMILY": 1, "A": a, "B": b, "VERIF_CUT2": None}, src1, nat1, backend="z3",
+                        unwind=340, timeout=1200, extra=["--nondet-static"], facet="history independence, HMAC/HKDF/PBKDF2 over Cut 2 (--nondet-static)"))
+    meta = {
+        "functions": ["every function of every library translation unit (structural facts)", "AEAD/SIV encrypt+decrypt, hash, HMAC, HKDF, clean (history queries)"],
+        "units": ["all 25 .c files under src/ (goto-cc symbol tables and call sites)", "src/*.c linked for the history queries"],
+        "bounds": "fact 1 (structural, not a solver query): the goto-cc symbol table of every library TU has no writable object with static "
+                  "lifetime and the call sites import only memcpy, memset, explicit_bzero|memset_s, getrandom|getentropy|syscall|open|read|close, "
+                  "__errno_location; three build configurations; fact 2 (solver): every API call writes only objects reachable from its arguments - "
+                  "shared with C06's exact-size-object queries; fact 3 (solver): out1 = A(x), unrelated B(y), out2 = A(x) => out1 == out2 with all "
+                  "static-lifetime objects nondeterministic (--nondet-static), 8 (thorough 21) (A,B) pairs. 1 and 2 give: two calls on disjoint objects "
+                  "access disjoint locations, hence commute, hence every interleaving equals a serial order (meta-step, stated).",
+        "outside": "actual multi-threaded execution (CBMC's thread support gives no verdict on these functions within budget: DESIGN 5.5); the "
+                   "commutation argument is a meta-step; data races inside libc",
+        "stubs": AEAD_STUBS, "assumptions": AEAD_ASSUME, "relies_on": ["C06 frame facts"],
+    }
+    return jobs, meta
+
+
 # ---- replay ----------------------------------------------------------------------------
 def replay(pid, path):
     hdr = {}
@@ -697,8 +795,15 @@ def replay(pid, path):
                 break
         if job:
             break
-    if job is None or job.kind != "cbmc":
-        print("replay: query %r not found for %s (E2/E3 findings carry their own replay command in the file)" % (jobname, pid))
+    if job is not None and job.kind == "cmd":
+        r = D.run_cmdjob(job)
+        print(json.dumps({k: r[k] for k in r if k in ("status", "failed", "counterexample", "reproduced", "why")}))
+        if r["status"] == "FAIL":
+            print("VIOLATION property=%s replay=%s" % (pid, path))
+            return 1
+        return 0 if r["status"] == "PASS" else 2
+    if job is None:
+        print("replay: query %r not found for %s" % (jobname, pid))
         return 2
     exe = D.native_build(job)
     if not exe:
